@@ -51,6 +51,9 @@ static inline _Bool Str__eq_cstr(const Str *a, const char *p) { for (unsigned lo
 static inline _Bool verif_in_set(const char *set, unsigned long m, char c) { for (unsigned long k = 0; k < STR_BCAP; ++k) { if (k < m && set[k] == c) return 1; } return 0; }
 static inline unsigned long Str__find_first_of_n(const Str *s, const char *set, unsigned long m, unsigned long pos) { for (unsigned long i = 0; i < STR_BCAP; ++i) { if (i >= pos && i < s->n && verif_in_set(set, m, s->d[i])) return i; } return STR_NPOS; }
 static inline unsigned long Str__find_first_not_of_n(const Str *s, const char *set, unsigned long m, unsigned long pos) { for (unsigned long i = 0; i < STR_BCAP; ++i) { if (i >= pos && i < s->n && !verif_in_set(set, m, s->d[i])) return i; } return STR_NPOS; }
+/* rfind(pat): last position at which pat occurs (size() for the empty pattern) */
+static inline unsigned long Str__rfind(const Str *s, const Str *pat, unsigned long pos) { unsigned long r = STR_NPOS;
+  for (unsigned long i = 0; i < STR_BCAP; ++i) { if (i + pat->n <= s->n) { _Bool m = 1; for (unsigned long k = 0; k < STR_BCAP; ++k) { if (k < pat->n && s->d[i + k] != pat->d[k]) m = 0; } if (m) r = i; } } return r; }
 static inline unsigned long Str__find_n(const Str *s, const char *pat, unsigned long m, unsigned long pos) {
   for (unsigned long i = 0; i < STR_BCAP; ++i) { if (i >= pos && i + m <= s->n) { _Bool ok = 1; for (unsigned long k = 0; k < STR_BCAP; ++k) { if (k < m && s->d[i + k] != pat[k]) ok = 0; } if (ok) return i; } } return STR_NPOS; }
 static inline unsigned long Str__find_last_of_n(const Str *s, const char *set, unsigned long m) { unsigned long r = STR_NPOS; for (unsigned long i = 0; i < STR_BCAP; ++i) { if (i < s->n && verif_in_set(set, m, s->d[i])) r = i; } return r; }
